@@ -200,3 +200,50 @@ package disk
 //@   may_panic
 //@   ensures [descriptor released] !fopen[d.fd]
 //@   modifies fopen
+
+// ---- the Disk interface as the register-array specification (for dynamic dispatch) ----------
+// dsize / dview are the abstract size and contents of a Disk value (keyed by the dynamic value).
+
+//@ ghost var dsize map[Int]uint64
+//@ ghost var dview map[Int]map[uint64]map[uint64]byte
+
+//@ assume func (Disk).Read (recv, a)
+//@   may_panic
+//@   panics_if a >= dsize[recv.val]
+//@   allocates
+//@   ensures len(result) == 4096 && fresh(result)
+//@   ensures forall i uint64 :: i < 4096 ==> result[i] == dview[recv.val][a][i]
+//@ assume func (Disk).Write (recv, a, v)
+//@   may_panic
+//@   panics_if len(v) != 4096 || a >= dsize[recv.val]
+//@   modifies dview
+//@   ensures forall d Int, b uint64, i uint64 :: dview[d][b][i] == (d == recv.val && b == a && i < 4096 ? v[i] : old(dview)[d][b][i])
+//@ assume func (Disk).Size (recv)
+//@   ensures result == dsize[recv.val]
+//@ assume func (Disk).Barrier (recv)
+//@   may_panic
+
+//@ props C09
+
+//@ func Init
+//@   ensures [global disk set] implicitDisk == d
+//@   modifies implicitDisk
+//@ func Get
+//@   ensures [global disk returned] result == implicitDisk
+//@ func Read
+//@   requires implicitDisk != nil
+//@   may_panic
+//@   panics_if [out-of-range address refused] a >= dsize[implicitDisk.val]
+//@   ensures [one fresh block of the global disk] len(result) == 4096 && fresh(result) && forall i uint64 :: i < 4096 ==> result[i] == dview[implicitDisk.val][a][i]
+//@ func Write
+//@   requires implicitDisk != nil
+//@   may_panic
+//@   panics_if [wrong-sized buffer or out-of-range address refused] len(v) != 4096 || a >= dsize[implicitDisk.val]
+//@   ensures [block a of the global disk holds v, everything else untouched] forall d Int, b uint64, i uint64 :: dview[d][b][i] == (d == implicitDisk.val && b == a && i < 4096 ? v[i] : old(dview)[d][b][i])
+//@   modifies dview
+//@ func Size
+//@   requires implicitDisk != nil
+//@   ensures [size of the global disk] result == dsize[implicitDisk.val]
+//@ func Barrier
+//@   requires implicitDisk != nil
+//@   may_panic
